@@ -26,7 +26,7 @@ def run(tier):
                "iteratively built values: accepted, accepted, max_nesting_depth_exceeded. items: UBJSON max_items m x counts {m-1,m,m+1} x 5 "
                "header kinds. stack: 30 operations (parse, copy, copy-assign, ==, <, dump, dump_pretty, CBOR decode/encode, ojson, move/swap "
                "on depth-1024 values; parse+destroy at depth 1e5 and 1e6) on a painted 512 KiB thread stack in a forked child. mem: 30 "
-               "length-claiming headers x claimed n in 2^20..2^64-1 x trailing bytes {0,1,16} x {bytes, istream, iterator} sources with a "
+               "length-claiming headers x claimed n in 2^20..2^64-1 x trailing bytes {0,1,16} x {bytes, istream, iterator} sources of decode_X<json> and the typed entry points try_decode_X<vector<double>|vector<uint8_t>|vector<string>|map<string,int64_t>> with a "
                "replaced operator new: peak live heap <= 128 KiB + 32 x (bytes supplied + bytes of value produced), and the claim must "
                "never reach the allocator (bad_alloc / length_error). non-trivial = cases where the expected acceptance / bound held.")
     ck.assumptions = ["stack and heap numbers are those of an -O2 build without sanitizers",
